@@ -129,12 +129,18 @@ vh_internal (const char *fmt, ...)
   _exit (2);
 }
 
-void
-vh_done (void)
+static void
+dump_stats (void)
 {
   for (int i = 0; i < nstats; i++)
     printf ("%c %s %lld\n", stats[i].ismax ? 'M' : 'S', stats[i].key, stats[i].v);
   printf ("S violations_total %lld\n", vh_nviol);
+}
+
+void
+vh_done (void)
+{
+  dump_stats ();
   printf ("DONE %d\n", truncated ? 0 : 1);
   fflush (stdout);
 }
@@ -250,10 +256,39 @@ vh_hex (const void *p, size_t n)
 }
 
 /* --------------------------------------------------------- fatal outcomes */
+static void fatal_exit (const char *kind) __attribute__ ((noreturn));
+static void dump_stats (void);
 sigjmp_buf vh_env;
 volatile int vh_armed;
 volatile int vh_fatal_sig;
 char vh_fatal_msg[256];
+
+int vh_fatal_exit;
+const char *vh_cur_case, *vh_cur_sig;
+char vh_san_desc[128];
+
+static void
+fatal_exit (const char *kind)
+{
+  char sig[300];
+  snprintf (sig, sizeof sig, "fatal/%s/%.80s/%s", vh_san_desc[0] ? vh_san_desc : kind, vh_fatal_msg, vh_cur_sig ? vh_cur_sig : "");
+  printf ("V %s\t%s,\"outcome\":\"%s %s\"}\n", sig, vh_cur_case ? vh_cur_case : "{\"case\":null", kind, vh_js (vh_fatal_msg, strlen (vh_fatal_msg)));
+  vh_stat ("stopped_after_fatal", 1);
+  vh_nviol++;
+  dump_stats ();
+  fflush (stdout);
+  _exit (3);
+}
+
+#if defined(__SANITIZE_ADDRESS__)
+const char *__asan_get_report_description (void);
+void __asan_on_error (void);
+void
+__asan_on_error (void)
+{
+  snprintf (vh_san_desc, sizeof vh_san_desc, "asan:%s", __asan_get_report_description ());
+}
+#endif
 
 const char *
 vh_fatal_name (int k)
@@ -274,6 +309,8 @@ __assert_fail (const char *expr, const char *file, unsigned int line, const char
 {
   snprintf (vh_fatal_msg, sizeof vh_fatal_msg, "assert(%s) at %s:%u in %s", expr,
             file ? (strrchr (file, '/') ? strrchr (file, '/') + 1 : file) : "?", line, func ? func : "?");
+  if (vh_fatal_exit)
+    fatal_exit ("assert");
   if (vh_armed)
     {
       vh_armed = 0;
@@ -286,6 +323,11 @@ __assert_fail (const char *expr, const char *file, unsigned int line, const char
 void
 abort (void)
 {
+  if (vh_fatal_exit)
+    {
+      snprintf (vh_fatal_msg, sizeof vh_fatal_msg, "abort()");
+      fatal_exit ("abort");
+    }
   if (vh_armed)
     {
       vh_armed = 0;
@@ -300,6 +342,11 @@ abort (void)
 static void
 on_signal (int sig)
 {
+  if (vh_fatal_exit && sig != SIGALRM)
+    {
+      snprintf (vh_fatal_msg, sizeof vh_fatal_msg, "signal %d", sig);
+      fatal_exit ("signal");
+    }
   if (vh_armed)
     {
       vh_armed = 0;
@@ -310,6 +357,8 @@ on_signal (int sig)
           siglongjmp (vh_env, VH_TIMEOUT);
         }
       snprintf (vh_fatal_msg, sizeof vh_fatal_msg, "signal %d", sig);
+      if (vh_fatal_exit)
+        fatal_exit ("signal");
       siglongjmp (vh_env, sig == SIGABRT ? VH_ABORT : VH_SIGNAL);
     }
   if (sig == SIGALRM)
